@@ -6,10 +6,14 @@ from .mgr_common import parse_obs, Ghost, stats, model_lines, mutate_case, last_
 ID = "C05"
 AREA = M.AREA
 LEAN_PROPS = "Litep2pVerif.Props.C05"
+CONST_TABLE = [
+    ("DIAL_DEADLINE_MULTIPLIER", "src/transport/mod.rs", r"const DIAL_DEADLINE_MULTIPLIER: u32 = ([^;]+);", 2),
+]
 THEOREMS = ["no_dup_outcome", "dial_ledger", "quiescent_dialable", "addr_total", "dial_address_parses_for_tcp",
             "dial_address_peers_agree", "transport_dial_total_on_accepted_shapes", "protocol_dial_ledger", "protocol_dial_joins",
             "protocol_notified_despite_full_channel", "facade_reports_every_outcome",
-            "poll_next_reports_every_ready_result", "executor_collects_every_due_event", "queued_dial_failure_is_due"]
+            "poll_next_reports_every_ready_result", "executor_collects_every_due_event", "queued_dial_failure_is_due",
+            "open_deadline_reports_failure"]
 MANIFEST = {
     "text": "Lean 4 theorems about an executable operational model of the connection manager with a ghost ledger of accepted "
             "dial attempts: no_dup_outcome, dial_ledger (outcome + inflight = 1 for every attempt in every reachable state), "
@@ -50,7 +54,14 @@ MANIFEST = {
             "for), queued_dial_failure_is_due; tied by the c01 area's `pn` op: a real TcpTransport with scripted ready results "
             "in its private queues (failed inbound negotiations, failed/successful dials, open results with live/aborted/missing "
             "cancel handles, in every order; real inbound sockets in the accept queue) polled through Stream::poll_next with a "
-            "counting waker; oracle: every queued outcome reported exactly once without an outside wake-up.",
+            "counting waker; oracle: every queued outcome reported exactly once without an outside wake-up. Round gtcp: the future "
+            "TcpTransport::open queues (openRun / openFuture: attempts one at a time, stalled attempts cost connection_open_timeout, "
+            "the exhausted list and the overall deadline DIAL_DEADLINE_MULTIPLIER * connection_open_timeout resolve to Failed, only "
+            "Transport::cancel yields Canceled): open_deadline_reports_failure (without a cancel exactly one of OpenFailure / "
+            "ConnectionOpened reaches the executor, never silence; no answering address => OpenFailure); tied by the c01 area's `dl` "
+            "op: a real TcpTransport with a 200-400 ms connection_open_timeout and one dial slot opens loopback addresses that "
+            "accept-and-never-speak / refuse / answer and its event stream is polled in real time past the deadline; oracle verdict "
+            "open-deadline-silent.",
     "note": "Trusted: Lean kernel; axioms propext/Quot.sound/Classical.choice; the model and its sampled tie; the environment "
             "contract `allowed` (events only for outstanding obligations, accept succeeds, dial/open/negotiate return Ok — "
             "proved for dial via dial_address_parses_for_tcp, read off tcp/mod.rs for open/negotiate); TcpTransport's poll_next "
@@ -73,7 +84,8 @@ RULE = ("closed-loop seeded histories (limit configs none/0/1/2/(3,2)/mixed; 2-3
         "dial_address, observation = Litep2p::next_event polled to quiescence, `fnext` polls again); run on the real TransportManager and on the Lean model; non-trivial = at least "
         "one dial attempt started and concluded; distinct = distinct (ops, observations) transcripts by SHA-256; plus (c01 area) 31 `pn` "
         "operations per quick run: 13 fixed queue shapes with event-less results ahead of a dial/open outcome and 18 random "
-        "multisets of up to 8 ready results with 0-3 waiting inbound sockets")
+        "multisets of up to 8 ready results with 0-3 waiting inbound sockets; `dl`: 10 fixed + 4 random address lists "
+        "(stall/refuse/answer, 1-4 addresses, timeout 200-400 ms, optional cancel at 50/100 ms) per quick run")
 TRUSTED_BASE = ["Lean 4.33 kernel", "axioms: propext, Quot.sound, Classical.choice only",
                 "hand-written model Model/Manager/{PeerState,Limits,Dial}.lean tied to manager/{peer_state,limits,mod}.rs by this correspondence run",
                 "the environment contract `allowed` of Model/Manager/Dial.lean (what a Transport may report)",
@@ -87,7 +99,10 @@ TRUSTED_BASE = ["Lean 4.33 kernel", "axioms: propext, Quot.sound, Classical.choi
                 "tokio mpsc semantics (bounded channel, a blocked send() is served before later try_send()s)",
                 "TcpTransport::poll_next model Model/Tcp/Poll.lean tied by the `pn` op of the c01 area (adapter /repo/src/verif/c01_tcp.rs, "
                 "checks/tcp_poll.py); futures::FuturesUnordered hands out ready futures in push order and registers the task's waker "
-                "for the others; tokio::select! fairness"]
+                "for the others; tokio::select! fairness",
+                "`dl` (round gtcp): real time on loopback — a listener socket that is never accept()ed completes the TCP handshake "
+                "(kernel backlog) and stays silent; attempts are modelled for max_parallel_dials = 1 only; shapes whose outcome hinges "
+                "on a race between an attempt's timeout and the deadline are not generated"]
 ASSUMPTIONS = ["default feature set: TCP is the only SupportedTransport",
                "the transport keeps the Transport-trait contract: one terminal event per dial/open/negotiate unless cancelled, "
                "reported peer = the /p2p it parsed, accept succeeds for a connection it has just reported",
